@@ -57,4 +57,10 @@ Record body := { b_st : list st; b_ret : ret }.
    c_ip : the `out is not None` branch (or the whole body for KIp) *)
 Record cls := { c_kind : kind; c_oop : body; c_ip : body }.
 
+(* the branch of npy_tensors._lincomb_impl for fewer than THRESHOLD_SMALL entries:
+   SvUnguarded : out[:] = a*x1 + b*x2                     (no test on a, b)
+   SvZeroZero  : out[:] = 0 if a == 0 and b == 0, else a*x1 + b*x2
+   SvGuarded   : every term with a zero coefficient is skipped *)
+Inductive small_variant := SvUnguarded | SvZeroZero | SvGuarded.
+
 Definition no_body : body := {| b_st := []; b_ret := RetNone |}.
